@@ -76,6 +76,23 @@ def run(ctx):
                        "disagrees_with": [w for w, s in (("reference: available => readable", bad_ref), ("model state after the same steps", bad_model)) if (ci, pi) in s]})
     for (cid, d) in child_diff[:3]:
         ctx.violation({"history": cases[cid]["h"], "child_process_differs_from_snapshot_at_point": d["point"], "child": d["child"]})
+    # concurrent put and delete of one address, scheduled through the wrappers' gate: the model's
+    # interleaving machine (Crash/Inter.v) predicts available metadata without data (C15_interleaved_refuted)
+    races = ctx.run_json([binp, "race"])
+    exprs = {}
+    for i, r in enumerate(races):
+        dels = 3 if r["wc"] else 2
+        exprs["r%d" % i] = ("let c := {| objs := objs race_cfg; wcen := %s |} in "
+                            "let s := pst (prun c ([EStart (OPut 0 false); EAdv 0; EStart (ODel [0])] ++ repeat (EAdv 1) %d ++ [EAdv 0])) in "
+                            "[exists_obs c s (ep s) 0; get_obs c s (ep s) 0; b2n (blob s 0); b2n (wc s 0)]" % (vlib.coq_bool(r["wc"]), dels))
+    pred = ctx.coq_eval_lists("race", "From Coq Require Import List. Import ListNotations.\nFrom NV Require Import Crash.Model Crash.Inter.\n", exprs)
+    race_ok = pred is not None and all(pred["r%d" % i] == [r["exists"], r["get"], r["blob"], r["cache"]] for i, r in enumerate(races))
+    ctx.tie(race_ok)           # the real shard under the gated schedule = the interleaving model
+    for r in races:
+        if r["exists"] == 1 and r["get"] != 0:
+            ctx.violation({"schedule": "Put(0): data write | Delete([0]) complete | Put(0): metabase update", "write_cache": r["wc"],
+                           "impl_trace": r["trace"], "impl_observation": {"exists": r["exists"], "get": r["get"], "blob": r["blob"], "cache": r["cache"]},
+                           "disagrees_with": "reference: available => readable (no crash needed)"}, key="put-delete-race")
     npts = sum(len(c["points"]) for c in cases)
     kinds = {}
     for c in cases:
@@ -105,5 +122,6 @@ def run(ctx):
         "exists_histogram(0 false,1 true,2 removed,3 expired,4 gc-marked)": exists_hist,
         "get_histogram(0 ok,1 not found,2 removed,3 expired,4 meta without object)": get_hist,
         "consts": consts,
+        "gated_race_schedules": races,
         "samples": sample,
     })
